@@ -416,12 +416,20 @@ class MemoryTags(Tags):
             Tuple of (updates, conflicts).
         """
         source_dict = self.get_tag_dict()
-        dest_dict = to_tags.get_tag_dict()
-        result, updates, conflicts = _reconcile_tags(
-            source_dict, dest_dict, overwrite, selector
-        )
-        if result != dest_dict:
-            to_tags._set_tag_dict(result)
+        # Hold the target's write lock across the read-modify-write, so that a
+        # tag added there by another writer meanwhile is not lost.
+        target_branch = getattr(to_tags, "branch", None)
+        with (
+            target_branch.lock_write()
+            if target_branch is not None
+            else contextlib.nullcontext()
+        ):
+            dest_dict = to_tags.get_tag_dict()
+            result, updates, conflicts = _reconcile_tags(
+                source_dict, dest_dict, overwrite, selector
+            )
+            if result != dest_dict:
+                to_tags._set_tag_dict(result)
         return updates, conflicts
 
 
